@@ -1,9 +1,11 @@
 (* Correspondence runner for the discharge service (C16). *)
 From Coq Require Export List NArith ZArith Bool.
-From Mac Require Export Model.TPServer Corr.Transport.
+From Mac Require Export Model.TPServer Model.TPStoreLRU Corr.Transport.
 Export ListNotations.
 
-Inductive tcase := KTP (acts : list action) (obs : list (list Z)).
+Inductive tcase :=
+| KTP (acts : list action) (obs : list (list Z))
+| KTPLRU (cap : nat) (acts : list action) (obs : list (list Z)).   (* MemoryStore of capacity cap (keys) *)
 
 Definition b2z (b : bool) : Z := if b then 1%Z else 0%Z.
 Definition zbody (b : body) : list Z :=
@@ -23,6 +25,10 @@ Definition zobs (o : obs) : list Z :=
   | OVisited app ok => [1001%Z; b2z app; b2z ok]
   end.
 Definition flat (l : list (list Z)) : list Z := flat_map (fun o => Z.of_nat (List.length o) :: o) l.
-Definition model_out (k : tcase) : list Z := match k with KTP a _ => flat (map zobs (run [] a)) end.
-Definition obs_out (k : tcase) : list Z := match k with KTP _ o => flat o end.
+Definition model_out (k : tcase) : list Z :=
+  match k with
+  | KTP a _ => flat (map zobs (run [] a))
+  | KTPLRU cap a _ => flat (map zobs (run_lru cap lempty a))
+  end.
+Definition obs_out (k : tcase) : list Z := match k with KTP _ o => flat o | KTPLRU _ _ o => flat o end.
 Definition run_cases (l : list tcase) := mismatches model_out obs_out l.
